@@ -48,6 +48,23 @@ def predicate(name, r):
                 if e.get("k") == "t.edit" and (e.get("i", 0) != e.get("j", 0)):
                     return True
         return False
+    if name == "same_client_reattach":
+        detached = set()
+        for st in trace:
+            op, c = st.get("op"), st.get("c", 0)
+            if op == "detach":
+                detached.add(c)
+            elif op == "newclient":
+                detached.discard(c)
+            elif op == "attach" and c in detached:
+                return True
+        return False
+    if name == "mixed_presence_flags":
+        flags = set()
+        for st in trace:
+            if st.get("op") == "attach":
+                flags.add(bool((st.get("opts") or {}).get("no_presence")))
+        return len(flags) == 2
     if name == "dbfault_dupwin":
         return any(st.get("db") and st.get("flag") == "dupwin" for st in trace)
     if name == "detach_or_deactivate":
@@ -79,12 +96,51 @@ def counterfactual_config(kind, cfg):
         cfg["client_disable_gc"] = True
         cfg["server_disable_gc"] = True
         return cfg
-    if kind == "no_dbfault":
+    if kind in ("no_dbfault", "uniform_presence_flag", "reattach_as_new_client"):
         return cfg
     raise ValueError("unknown counterfactual " + kind)
 
 
 def counterfactual_trace(kind, trace):
+    if kind == "reattach_as_new_client":
+        out = []
+        detached = set()
+        for st in trace:
+            op, c = st.get("op"), st.get("c", 0)
+            if op == "detach":
+                detached.add(c)
+            elif op == "newclient":
+                detached.discard(c)
+            elif op == "attach" and c in detached:
+                detached.discard(c)
+                nc = {"op": "newclient"}
+                ac = {"op": "activate"}
+                if c:
+                    nc["c"] = c
+                    ac["c"] = c
+                out.append(nc)
+                out.append(ac)
+            out.append(st)
+        return out
+    if kind == "uniform_presence_flag":
+        first = None
+        out = []
+        for st in trace:
+            st = dict(st)
+            if st.get("op") == "attach":
+                opts = dict(st.get("opts") or {})
+                flag = bool(opts.get("no_presence"))
+                if first is None:
+                    first = flag
+                if flag != first:
+                    if first:
+                        opts["no_presence"] = True
+                        opts.pop("presence", None)
+                    else:
+                        opts.pop("no_presence", None)
+                st["opts"] = opts
+            out.append(st)
+        return out
     if kind == "no_dbfault":
         out = []
         for st in trace:
